@@ -309,6 +309,10 @@ def _part(val):
     while isinstance(val, tuple) and val[:1] == ("attr",) and val[2] in ("real", "imag"):
         parts.append(val[2])
         val = val[1]
+    if isinstance(val, tuple) and val[:1] == ("sym",) and isinstance(val[1], str):
+        names = val[1].split("@")[0].split(".")          # an attribute of a plain name is kept as the dotted symbol `x.real`
+        while len(names) > 1 and names[-1] in ("real", "imag"):
+            parts.append(names.pop())
     return "".join("." + x for x in reversed(parts))
 
 
